@@ -102,7 +102,7 @@ def main():
         results.append((tag, meta["confirmed"], {k: bool(v["violation"]) for k, v in rec.get("checks", {}).items()}))
         print(tag, "confirmed" if meta["confirmed"] else "NOT-CONFIRMED", results[-1][2], flush=True)
     # restore generated constants for /repo
-    sh("python3 tools/gen_consts.py", cwd=ROOT)
+    sh("python3 -c \"import sys; sys.path.insert(0,'tools'); import vlib\nwith vlib.Lock('coq'): vlib.gen_consts()\"", cwd=ROOT)
 
 
 if __name__ == "__main__":
